@@ -1,5 +1,5 @@
 """C04 - each operator computes its documented function (DESIGN 6/C04): Ops.tla is the definition; TLC enumerates, the real code is replayed."""
-import vlib, parts_multi, parts_pipeline as pp, common
+import vlib, parts_multi, parts_creation, parts_pipeline as pp, common
 
 PID = 'C04'
 
@@ -8,6 +8,8 @@ def main(argv):
     rep = vlib.Report(PID, 'model_checking', argv)
     vlib.build_harness()
     pp.run(rep, PID, common.pipeline_cfgs(rep, 'values'))
+    # creation operators as functions of their parameters (Creation.tla), alone, behind Take(n), subscribed twice
+    parts_creation.run(rep, PID, rep.tier == 'thorough')
     # single-source operators with a higher-order output (GroupBy): groups observed at once, inner deliveries flattened (MultiDef.tla)
     parts_multi.run_single(rep, PID, rep.tier == 'thorough')
     rep.cov['rule'] = common.PIPE_RULE
@@ -20,6 +22,8 @@ def main(argv):
 def replay(path):
     vlib.build_harness()
     import json
+    if json.load(open(path))['replay'].get('module') == 'Creation':
+        return parts_creation.replay_case(PID, path)
     if json.load(open(path))['replay'].get('module') == 'MultiGen':
         return parts_multi.replay_case(PID, path)
     return pp.replay_case(PID, path)
